@@ -730,6 +730,9 @@ func (ck checker) runSegment(name string, payload []byte, selfContained bool) {
 		c.Max("max_ratio_x100_segment_lz4", int64(len(payload))*100/int64(len(parsed.Transmitted)+1))
 	}
 	c.Count("segments_lz4_"+cls, 1)
+	if compressed && len(parsed.Transmitted) == len(payload) {
+		c.Count("segments_lz4_compressed_form_with_equal_lengths", 1)
+	}
 	c.Distinct("segment/lz4/" + name)
 	d.CompLen, d.Comp0 = len(parsed.Transmitted), head(parsed.Transmitted, 48)
 	var got *segment.Segment
@@ -927,8 +930,25 @@ func (ck checker) framesAndSegments() {
 	win := enc(rowsFrame(v5, [][]byte{segref.Content(segref.Window64K, 120000, mon.NewRand(c.Seed, 1<<53))}, 1))
 	segs = append(segs, sp{"envelope-window64k-cell", win, true})
 	segs = append(segs, sp{"empty-payload", []byte{}, true})
+	// break-even family: short incompressible payloads with one planted repeat of 4..9 bytes, so that the LZ4
+	// block is a few bytes shorter than, exactly as long as, or a few bytes longer than the payload — the
+	// boundary between the compressed form and the "not compressed" fallback of the segment header
+	for n := 17; n <= 72; n++ {
+		for k := 4; k <= 9; k++ {
+			p := make([]byte, n)
+			for i := range p {
+				p[i] = byte(i*37 + 1)
+			}
+			copy(p[8:8+k], p[0:k])
+			segs = append(segs, sp{fmt.Sprintf("break-even-n%d-k%d", n, k), p, (n+k)%2 == 0})
+		}
+	}
+	segs = append(segs, sp{"break-even-19", []byte{1, 2, 3, 4, 1, 2, 3, 4, 9, 10, 11, 12, 13, 14, 15, 16, 17, 18, 19}, true})
 	mon.ParallelN(4, len(segs), func(i int) { ck.runSegment(segs[i].name, segs[i].p, segs[i].self) })
 	c.Set("segments", len(segs))
+	if c.Replay == "" && c.Counter("segments_lz4_compressed_form_with_equal_lengths") == 0 && c.Counter("segments_lz4_fallback-form") == 0 {
+		c.Fatal("run did not exercise the compressed/fallback boundary of LZ4 segments")
+	}
 
 	// the same segments as a sequence on ONE codec instance per side, in both orders: content decoded with a
 	// compressor must stay what it was after the codec has been used again
